@@ -573,8 +573,12 @@ fn layout_and_render(view: &dyn View) -> String {
         BoxConstraint::tight(Size::new(1 << 33, 1 << 33)),
     ];
     let mut summary = String::new();
-    for ctx in ctxs.iter() {
-        for ct in cts.iter() {
+    for (ci, ctx) in ctxs.iter().enumerate() {
+        for (ki, ct) in cts.iter().enumerate() {
+            // the first context sees every constraint, the other two a small, a tight and the unbounded one
+            if ci > 0 && !matches!(ki, 0 | 1 | 5) {
+                continue;
+            }
             let mut store = ViewLayoutStore::new();
             match view.layout_new(ctx, *ct, &mut store) {
                 Err(_) => summary.push('l'),
